@@ -926,7 +926,7 @@ def _emit_block(
         block_lines.append(f"{inner_indent}  digitalWrite({in2_expr}, HIGH);")
         block_lines.append(f"{inner_indent}}}")
         block_lines.append(f"{inner_indent}analogWrite({enable_expr}, __redu_pwm);")
-        block_lines.append(f"{inner_indent}if (__redu_pwm == 0) {{")
+        block_lines.append(f"{inner_indent}if (__redu_effective == 0.0f) {{")
         block_lines.append(f"{inner_indent}  {mode_var} = F(\"coast\");")
         block_lines.append(f"{inner_indent}}} else {{")
         block_lines.append(f"{inner_indent}  {mode_var} = F(\"drive\");")
